@@ -73,6 +73,7 @@ Definition template_agrees (T : tmpl) (o : tmpl_obs) : bool :=
 
 Inductive case :=
 | CTemplate (name text : pystr) (fo : list (pystr * option pystr)) (impl : option tmpl_obs)
+| CTemplateChiralErr (name text : pystr) (fo : list (pystr * option pystr))   (* the library raised "Chiral node ... neighbors" *)
 | CSmiles (text : pystr) (base : sobs_base) (full : sobs_full)
 | CStrip (text : pystr) (fo : list (pystr * option pystr)) (judge : bool) (toks : list tok) (dc : decor) (impl : obs)
 | CRing (rest : pystr) (token : ascii) (nc : nat) (impl : ring_obs)
@@ -85,6 +86,9 @@ Definition corr_ok (c : case) : bool :=
       | None => true            (* the implementation raised after the modelled stage: no claim *)
       | Some o => match fragment_template_final_rs (fo_of_table fo) name text with Ok T => template_agrees T o | Err _ => false end
       end
+  | CTemplateChiralErr name text fo =>
+      (* pysmiles refused a chirality centre (not four neighbours): the model must not return a template *)
+      match fragment_template_final_rs (fo_of_table fo) name text with Ok _ => false | Err _ => true end
   | CSmiles text base full =>
       (match base_smiles_parser text, base with
        | Ok (atoms, edges, ez), SBOk (atoms', edges', ez') =>
